@@ -266,21 +266,35 @@ class ValidatorResult(object):
     __slots__ = ("verdict", "exc", "pics", "reads", "tell", "headers", "decodes", "unit_codes", "explain_failure", "tell_bits")
 
 
-def check_reportable(exc, filename="stream.vc2", tell_bits=0):
-    """Do with a ConformanceError exactly what the validator command does with
-    it; returns None or the exception that doing so raised."""
+def check_reportable(exc, filename="stream.vc2", tell_bits=0, salt=0):
+    """Do with a ConformanceError what the validator command does with it —
+    explain it, print it, locate it, turn it into a viewer hint — in an ORDER
+    chosen by ``salt`` (each of the four must work on a freshly raised error,
+    whichever is asked first); returns None or the exception that doing so
+    raised."""
+    import itertools
+
+    order = list(itertools.permutations(("explain", "str", "offset", "hint")))[salt % 24]
+    got = {}
     try:
-        text = wrap_paragraphs(exc.explain())
-        summary, _, details = text.partition("\n")
-        str(exc)
-        off = exc.offending_offset()
-        if off is not None:
-            if not isinstance(off, int) or isinstance(off, bool) or off < 0:
-                raise HarnessError("offending_offset() returned %r" % (off,))
-        else:
-            off = tell_bits
-        title = "Conformance error at bit offset {}".format(off)
-        hint = dedent(exc.bitstream_viewer_hint()).strip().format(cmd="vc2-bitstream-viewer", file=filename, offset=off)
+        for what in order:
+            if what == "explain":
+                got["text"] = wrap_paragraphs(exc.explain())
+            elif what == "str":
+                str(exc)
+            elif what == "offset":
+                off = exc.offending_offset()
+                if off is not None:
+                    if not isinstance(off, int) or isinstance(off, bool) or off < 0:
+                        raise HarnessError("offending_offset() returned %r" % (off,))
+                else:
+                    off = tell_bits
+                got["off"] = off
+            else:
+                got["hint_template"] = dedent(exc.bitstream_viewer_hint()).strip()
+        summary, _, details = got["text"].partition("\n")
+        title = "Conformance error at bit offset {}".format(got["off"])
+        hint = got["hint_template"].format(cmd="vc2-bitstream-viewer", file=filename, offset=got["off"])
         wrap_paragraphs(summary, 80)
         wrap_paragraphs(details, 80)
         if not isinstance(hint, str) or not title:
@@ -317,7 +331,7 @@ def run_validator(data, tap=False):
             except Exception:
                 tb = 0
             res.tell_bits = tb
-            res.explain_failure = check_reportable(e, tell_bits=tb)
+            res.explain_failure = check_reportable(e, tell_bits=tb, salt=(len(data) * 7 + (data[-1] if data else 0)))
         except OutOfScope as e:
             res.verdict, res.exc = "oos", e
         except StepBudgetExceeded as e:
